@@ -435,7 +435,7 @@ impl Property for C17 {
         "C17"
     }
     fn rule(&self) -> String {
-        "each case runs the hctl-model-checker binary built from /repo's working tree: random network written as aeon / bnet / sbml file x formula file with 1-3 closed formulae and a random layout (comment lines, blank lines, surrounding blanks and tabs, LF or CRLF) x print option (default, summary, no-print, with-progress, exhaustive) x optional context archive (built with matching k) for extended formulae. Oracle: archived sets BDD-equal to model_check_multiple_*_dirty on get_extended_symbolic_graph(bn, max depth), in file order; printed result / colour / state counts equal those of the library sets and of the explicit semantics; exhaustive listing == state projection; error inputs (garbage model, invalid formula, free variable, missing label, non-zip archive, corrupt .bdd entry, missing files) give a message, exit code 0, no archive. Non-trivial: an error input, or >= 2 formulae separated by comment/blank lines with a non-trivial result.".into()
+        "each case runs the hctl-model-checker binary built from /repo's working tree: random network written as aeon / bnet / sbml file x formula file with 1-3 closed formulae and a random layout (comment lines, blank lines, surrounding blanks and tabs, LF or CRLF) x print option (default, summary, no-print, with-progress, exhaustive) x optional context archive (built with matching k) for extended formulae. Oracle: archived sets BDD-equal to model_check_multiple_*_dirty on get_extended_symbolic_graph(bn, max depth), in file order; printed result / colour / state counts equal those of the library sets and of the explicit semantics; exhaustive listing == state projection; error inputs (garbage model, invalid formula, free variable, missing label, non-zip archive, corrupt .bdd entry, missing files) give a message, exit code 0, no archive. Deterministic stage: exhaustive listings of up to 2^9 (thorough 2^11) states on ring networks, compared with the library's vertex iterator. Non-trivial: an error input, or >= 2 formulae separated by comment/blank lines with a non-trivial result.".into()
     }
     fn assumptions(&self) -> Vec<String> {
         vec![
@@ -476,6 +476,98 @@ impl Property for C17 {
         }
     }
     fn replay(&self, case: &Value) -> Verdict {
+        if case.get("listing_vars").is_some() {
+            return match large_listing_case(case["listing_vars"].as_u64().unwrap_or(7) as usize) {
+                Ok(rep) => Verdict::Pass(rep),
+                Err(f) => Verdict::Fail(f),
+            };
+        }
         replay_with(case, check)
     }
+    fn extra_stages(&self, tier: Tier, _seed: u64, stats: &mut Stats) -> Option<Failure> {
+        // exhaustive listings with hundreds of states (networks of 7-10 variables)
+        let sizes = tier.pick(vec![7usize, 9], vec![7, 8, 9, 10, 11]);
+        for n in &sizes {
+            match large_listing_case(*n) {
+                Ok(rep) => stats.add(rep),
+                Err(f) => return Some(f),
+            }
+        }
+        stats.stages.insert("large-listings".into(), json!({"variables": sizes}));
+        None
+    }
+}
+
+/// `-p exhaustive` on a ring network of `n` variables: the listed states must be exactly the state
+/// projection of the library result (here obtained from the library's own vertex iterator).
+fn large_listing_case(n: usize) -> Result<CaseReport, Failure> {
+    let case_json = json!({"listing_vars": n});
+    let fail = |class: &str, msg: String| Failure {
+        class: class.to_string(),
+        message: msg,
+        case: case_json.clone(),
+    };
+    let name = |i: usize| format!("v{i:02}");
+    // v0 is an input-like frozen variable, the others copy their predecessor: many steady states
+    let mut aeon = format!("{0} -> {0}\n${0}: {0}\n", name(0));
+    for i in 1..n {
+        aeon.push_str(&format!("{0} -> {1}\n${1}: {0}\n", name(i - 1), name(i)));
+    }
+    let formulas = ["true", "v00", "EF (v01 & ~v02)", "!{x}: AX {x}", "AG (v00 | ~v03)"];
+    let dir = tempfile::tempdir().expect("tempdir");
+    let path = |f: &str| dir.path().join(f).to_string_lossy().to_string();
+    std::fs::write(path("m.aeon"), &aeon).unwrap();
+    std::fs::write(path("f.txt"), formulas.join("\n")).unwrap();
+    let bin = format!("{}/hctl-model-checker", bins_dir());
+    let out = Command::new(&bin)
+        .args([path("m.aeon"), path("f.txt"), "-p".into(), "exhaustive".into()])
+        .output()
+        .unwrap_or_else(|e| harness_error(&format!("cannot run {bin}: {e}")));
+    if out.status.code() != Some(0) {
+        return Err(fail("C17:crash:valid-input", format!("exit code {:?} on a {n}-variable network", out.status.code())));
+    }
+    let stdout = String::from_utf8_lossy(&out.stdout).to_string();
+    let blocks = parse_blocks(&stdout, true).map_err(|e| fail("C17:output-shape", e))?;
+    if blocks.len() != formulas.len() {
+        return Err(fail("C17:output-blocks", format!("{} blocks for {} formulae", blocks.len(), formulas.len())));
+    }
+    let bn = BooleanNetwork::try_from(aeon.as_str()).map_err(|e| fail("C17:harness", e))?;
+    let g = get_extended_symbolic_graph(&bn, 1).map_err(|e| fail("C17:harness", e))?;
+    let names: Vec<String> = bn.variables().map(|v| bn.get_variable_name(v).clone()).collect();
+    let lib = match guard(|| model_check_multiple_formulae_dirty(formulas.to_vec(), &g)) {
+        Ok(Ok(r)) => r,
+        other => return Err(fail("C17:harness", format!("library evaluation failed: {:?}", other.map(|r| r.map(|v| v.len()))))),
+    };
+    let mut biggest = 0usize;
+    for (i, (b, r)) in blocks.iter().zip(&lib).enumerate() {
+        use biodivine_lib_param_bn::biodivine_std::bitvector::BitVector;
+        let mut expected: BTreeSet<String> = BTreeSet::new();
+        for state in r.vertices().materialize().iter() {
+            let line: String = (0..names.len())
+                .map(|v| format!("{}{} & ", if state.get(v) { "" } else { "~" }, names[v]))
+                .collect();
+            expected.insert(line.trim().to_string());
+        }
+        biggest = biggest.max(expected.len());
+        let got: BTreeSet<String> = b.listing.iter().cloned().collect();
+        if b.states != format!("{}", r.vertices().approx_cardinality()) {
+            return Err(fail("C17:printed-counts-differ-from-library", format!("`{}`: printed {} states, library {}", formulas[i], b.states, r.vertices().approx_cardinality())));
+        }
+        if got != expected || b.listing.len() != expected.len() {
+            let missing: Vec<&String> = expected.difference(&got).take(3).collect();
+            return Err(fail(
+                "C17:exhaustive-listing",
+                format!(
+                    "`{}` on a {n}-variable network: the library result has {} states, the tool lists {} lines ({} distinct); e.g. missing {:?}",
+                    formulas[i], expected.len(), b.listing.len(), got.len(), missing
+                ),
+            ));
+        }
+    }
+    Ok(CaseReport {
+        nontrivial: biggest > 64,
+        key: hash_of(&("listing", n)),
+        classes: vec![format!("large-listing:{biggest}-states")],
+        sample: json!({"network": format!("ring of {n} variables"), "formulas": formulas, "largest_listing": biggest}),
+    })
 }
